@@ -45,7 +45,7 @@ Blame ==
   @@ "cb.pb.failed.owning" :> {"C02", "C03", "C04", "C06", "C17"} @@ "cb.pb.failed.restarted.owning" :> {"C02", "C03", "C04", "C06", "C07", "C17"}
   @@ "hb.phase.failed.startErr.restarted" :> {"C06", "C03", "C07"}
   @@ "oe.res.failed.startErr.restarted" :> {"C06", "C02", "C03", "C07"} @@ "oe.res.failed.startErr.await.restarted" :> {"C06", "C02", "C03", "C04", "C07"}
-  @@ "exit.loop.aftertimeout" :> {"C11", "C03"} @@ "exit.loop.held" :> {"C03", "C05", "C15"}
+  @@ "exit.loop.aftertimeout" :> {"C11", "C03"} @@ "exit.loop.held" :> {"C03", "C05", "C15"} @@ "exit.loop.restart" :> {"C07", "C03"}
   @@ "oe.res.stopped.failed" :> {"C14", "C06"} @@ "oe.res.running.failed" :> {"C14", "C06"}
   @@ "oe.res.try_from_registry.failed" :> {"C08", "C14", "C06"} @@ "oe.res.already_running.failed" :> {"C08", "C14", "C06"}
   @@ "oe.done.failed" :> {"C08", "C14", "C06"}
